@@ -448,7 +448,10 @@ async fn run_e(serial: u64, with_gen: bool, nreq: usize) -> Result<String, Strin
     let insert = "INSERT INTO ks.t (pk, ck, v) VALUES (?, ?, ?)";
     cluster.on_prepare(insert, table.prepared("ks", &["pk", "ck", "v"], &[]));
     let counting = Arc::new(CountingGen { inner: MonotonicTimestampGenerator::new(), calls: AtomicU64::new(0) });
-    let mut b = SessionBuilder::new().known_node_addr(cluster.contact_point(0)).connection_timeout(Duration::from_secs(5));
+    let mut b = SessionBuilder::new()
+        .known_node_addr(cluster.contact_point(0))
+        .local_ip_address(Some(cluster.client_ip()))
+        .connection_timeout(Duration::from_secs(5));
     if with_gen {
         b = b.timestamp_generator(counting.clone());
     }
@@ -583,8 +586,9 @@ async fn run_e(serial: u64, with_gen: bool, nreq: usize) -> Result<String, Strin
             format!("{}.{}.{}", kind, opt(*explicit), o)
         })
         .collect();
-    drop(session);
+    // the mock closes first (the server side takes the TIME_WAITs), then the session goes
     cluster.shutdown();
+    drop(session);
     Ok(format!("{} {:x} {:x}", if toks.is_empty() { "-".to_string() } else { toks.join(",") }, consults, unmatched))
 }
 
@@ -663,10 +667,12 @@ fn main() {
         emit(&mut out, format!("T {:x} 0 {:x} {:x} 4", serial, threads, 2_000));
         budget -= (threads * 2_000) as i64;
     }
-    for pace in 0..3u64 {
+    // FIXED number of cases of every kind, independent of the seed (checks/c18.py floors are below these counts):
+    // T 15 + 3 + 12 = 30, B 5, C 9, E 12 (quick) / 60 (thorough); the seeded part below only adds to them
+    for (pace, warn) in [(0u64, 0u64), (1, 1), (2, 0), (0, 1), (1, 0)] {
         let calls = if pace == 1 { 5_000 } else { 40_000 };
         serial += 1;
-        emit(&mut out, format!("B {:x} {:x} {:x} {:x}", serial, pace & 1, calls, pace));
+        emit(&mut out, format!("B {:x} {:x} {:x} {:x}", serial, warn, calls, pace));
         budget -= calls as i64;
     }
     // tick sweep on the real clock and the scripted-clock paces, for few and many threads
